@@ -241,6 +241,8 @@ def run(chk):
     st += [["stress %d %d:%d:%d:%d" % x] for x in
            ([(64, 16, 400000, 2, 2), (100, 33, 600000, 3, 1), (PAGE - HDR, 1024, 8000000, 2, 3), (17, 6, 120000, 4, 2)]
             + ([(64, 16, 4000000, 2, 2), (40, 13, 2000000, 5, 3), (2 * PAGE - HDR, 4096, 80000000, 3, 2), (7, 6, 300000, 2, 2)] if thorough else []))]
+    # a clear through a third handle while a consumer drains a large buffer: CAP CHUNK:ROUNDS:0:0:clr
+    st += [["stress %d %d:%d:0:0:clr" % x] for x in ([(16 << 20, 4096, 3)] + ([(64 << 20, 4096, 4), (1 << 20, 256, 6)] if thorough else []))]
     chk.bump("multi-party stress runs", len(st) - (5 if thorough else 2))
     f3, c3, t3 = diffrun.campaign(chk, fam, st, proof_ok, detail, signature_of, "C08 concurrent producer/consumer", batch=1, min_ops=1)
     diffrun.conclude(chk, found or f2 or f3, corr or c2 or c3, thm or t2 or t3, proof_ok and driver_ok, detail, "C08 shm buffer")
